@@ -35,9 +35,9 @@ TrLost == /\ Is("lost") /\ l' = l + 1 /\ UNCHANGED <<bad, oestd>>
 
 Sources == {""} \cup {LocalOf[c] : c \in Ctrl}
 LookKey(S, D) == S \o ">" \o D
-ExpLook(S, D) == {[ctrl |-> CtrlOf(x), uuid |-> Uuid(x), remote |-> D] : x \in {y \in olive : Remote(y) = D /\ S \in {"", LocalOf[CtrlOf(y)]}}}
+ExpLook(S, D) == {[ctrl |-> CtrlOf(x), uuid |-> Uuid(x), remote |-> D, obj |-> x] : x \in {y \in olive : Remote(y) = D /\ S \in {"", LocalOf[CtrlOf(y)]}}}
 ObsLook(S, D) == SeqSet(Ev.looks[LookKey(S, D)])
-Proj(v) == [ctrl |-> v.ctrl, uuid |-> v.uuid, remote |-> v.remote]
+Proj(v) == [ctrl |-> v.ctrl, uuid |-> v.uuid, remote |-> v.remote, obj |-> v.obj]   \* obj: the link object the looked-up value wraps
 
 TrQ ==
   /\ Is("q") /\ l' = l + 1 /\ UNCHANGED <<vars, olive, oestd, odead>>
